@@ -3,6 +3,7 @@ package props
 import (
 	"fmt"
 	"go/token"
+	"go/types"
 	"strings"
 
 	"golang.org/x/tools/go/ssa"
@@ -35,11 +36,42 @@ func closureArg(c ssa.CallInstruction) *ssa.Function {
 	switch v := c.Common().Args[1].(type) {
 	case *ssa.MakeClosure:
 		f, _ := v.Fn.(*ssa.Function)
+		if m := boundMethod(f); m != nil {
+			return m // a method value (x.method) handed over as the closure
+		}
 		return f
 	case *ssa.Function:
 		return v
 	}
 	return nil
+}
+
+// boundMethod returns the declared method behind a bound-method wrapper.
+func boundMethod(f *ssa.Function) *ssa.Function {
+	if f == nil || !strings.HasPrefix(f.Synthetic, "bound method wrapper") {
+		return nil
+	}
+	if obj, ok := f.Object().(*types.Func); ok {
+		return f.Prog.FuncValue(obj)
+	}
+	return nil
+}
+
+// boundSites lists the calls (in fns) that receive method fn as a method value argument.
+func boundSites(fns []*ssa.Function, fn *ssa.Function) []ssa.CallInstruction {
+	var out []ssa.CallInstruction
+	for _, g := range fns {
+		for _, c := range core.Calls(g) {
+			for _, a := range c.Common().Args {
+				if mc, ok := a.(*ssa.MakeClosure); ok {
+					if w, _ := mc.Fn.(*ssa.Function); boundMethod(w) == fn && fn != nil {
+						out = append(out, c)
+					}
+				}
+			}
+		}
+	}
+	return out
 }
 
 // txnFromUpdate: v is the txn parameter of a closure passed directly to
@@ -107,8 +139,15 @@ func txnFromUpdate(v ssa.Value, fns []*ssa.Function, depth int) (bool, string) {
 		}
 	}
 	cs := callsTo(fns, fn)
-	if len(cs) == 0 {
+	bs := boundSites(fns, fn)
+	if len(cs) == 0 && len(bs) == 0 {
 		return false, "helper " + core.FuncName(fn) + " has no static caller"
+	}
+	for _, c := range bs {
+		// a method value used as the update closure: the parameter after the receiver is the txn
+		if !(isBadgerCall(c, "DB", "Update") && closureArg(c) == fn && idx == 1) {
+			return false, "method value " + core.FuncName(fn) + " is passed to " + core.CalleeName(c) + ", not DB.Update"
+		}
 	}
 	for _, c := range cs {
 		if core.IsGo(c) {
@@ -534,7 +573,15 @@ func c13(r *core.Run) {
 	}
 	rbk := methodNamed(p, rel, "QueryStore", "RebuildIndexes")
 	if rbk != nil {
-		for _, f2 := range withAnon(rbk) {
+		rbFns := withAnon(rbk)
+		for _, c := range core.Calls(rbk) {
+			if isBadgerCall(c, "DB", "Update") {
+				if cl := closureArg(c); cl != nil && cl.Parent() == nil {
+					rbFns = append(rbFns, withAnon(cl)...)
+				}
+			}
+		}
+		for _, f2 := range rbFns {
 			for _, c := range core.Calls(f2) {
 				if isBadgerCall(c, "Txn", "Set") {
 					nn := false
@@ -642,8 +689,19 @@ func c13(r *core.Run) {
 	if view != nil {
 		g0 := false
 		for _, ed := range dominatingEdges(view) {
-			d := describeCond(ed)
-			if strings.HasSuffix(strings.ToLower(d), "limit!=0") {
+			// the variable initialised from the query's Limit field (or the field itself) is known non-zero
+			ci := core.Cond(ed.If.Cond)
+			if ci.Kind != "constcmp" || ci.Const == nil || ci.Const.ExactString() != "0" {
+				continue
+			}
+			truth := ed.Succ == 0
+			if ci.Negate {
+				truth = !truth
+			}
+			if (ci.Op == token.NEQ) != truth {
+				continue
+			}
+			if derivesFromField(ci.X, "IndexQuery", "Limit") {
 				g0 = true
 			}
 		}
@@ -682,6 +740,36 @@ func c13(r *core.Run) {
 
 // equalGuard describes how a bytes.Equal(x,y) call on index keys is guarded.
 func equalGuards(fn *ssa.Function) (calls int, guardedBoth int, bothNilTest bool, pos string) {
+	// the predicate may live in a pure helper: evaluate it on every nil/equal combination
+	for _, c := range keyPredicateCalls(fn) {
+		cal := c.Common().StaticCallee()
+		if cal.String() == "bytes.Equal" {
+			continue
+		}
+		calls++
+		pos = fmt.Sprint(c.Pos())
+		tbl, eqOnNil, ok := evalKeyPredicate(cal)
+		if !ok {
+			continue
+		}
+		exact := true
+		for _, xn := range []bool{false, true} {
+			for _, yn := range []bool{false, true} {
+				for _, eq := range []bool{false, true} {
+					want := (xn && yn) || (!xn && !yn && eq)
+					if tbl[[3]bool{xn, yn, eq}] != want {
+						exact = false
+					}
+				}
+			}
+		}
+		if !eqOnNil && exact {
+			guardedBoth++
+		}
+		if tbl[[3]bool{true, true, false}] && tbl[[3]bool{true, true, true}] {
+			bothNilTest = true
+		}
+	}
 	for _, c := range core.Calls(fn) {
 		cal := c.Common().StaticCallee()
 		if cal == nil || cal.String() != "bytes.Equal" {
@@ -769,6 +857,12 @@ func c14(r *core.Run) {
 			}
 		}
 	}
+	fanFns := fanoutFuncsOf(p, rel, "QueryStore", "OnQueryChange")
+	for _, c := range core.Calls(ui) {
+		if cal := c.Common().StaticCallee(); cal != nil && fanFns[cal] && cal != ui {
+			fan = append(fan, c)
+		}
+	}
 	if len(fan) == 0 || upd == nil {
 		r.Bad("N1", core.FuncName(ui), "fan-out-exists", p.Pos(ui.Pos()), "no query-change fan-out / no index transaction in updateIndex")
 	}
@@ -786,7 +880,7 @@ func c14(r *core.Run) {
 			if ci.Kind == "other" || ci.Kind == "boolfield" {
 				// the updated cell: a bool load from a local alloc
 				if u, ok := ci.X.(*ssa.UnOp); ok {
-					if al, ok := u.X.(*ssa.Alloc); ok && al.Comment == "updated" || ok && strings.Contains(al.Comment, "updated") {
+					if al, ok := u.X.(*ssa.Alloc); ok && isChangedFlag(al) {
 						truth := ed.Succ == 0
 						if ci.Negate {
 							truth = !truth
@@ -818,8 +912,8 @@ func c14(r *core.Run) {
 				}
 				// and the Equal==true edge must not reach it without passing the loop head
 				eqReaches := false
-				for _, c := range core.Calls(f2) {
-					if cal := c.Common().StaticCallee(); cal != nil && cal.String() == "bytes.Equal" && c.Value().Referrers() != nil {
+				for _, c := range keyPredicateCalls(f2) {
+					if c.Value().Referrers() != nil {
 						for _, rf := range *c.Value().Referrers() {
 							if iff, ok := rf.(*ssa.If); ok {
 								tb := iff.Block().Succs[0]
@@ -851,10 +945,8 @@ func c14(r *core.Run) {
 	// N2
 	var uiCl *ssa.Function
 	for _, f2 := range ui.AnonFuncs {
-		for _, c := range core.Calls(f2) {
-			if cal := c.Common().StaticCallee(); cal != nil && cal.String() == "bytes.Equal" {
-				uiCl = f2
-			}
+		if len(keyPredicateCalls(f2)) > 0 {
+			uiCl = f2
 		}
 	}
 	type sig struct {
@@ -1099,4 +1191,232 @@ func sameVariable(a, b ssa.Value) bool {
 		}
 	}
 	return true
+}
+
+// keyPredicateCalls lists the calls in fn that decide whether two index keys
+// are the same: bytes.Equal itself, or a module helper (bool result, two
+// []byte parameters) that evaluates bytes.Equal.
+func keyPredicateCalls(fn *ssa.Function) []ssa.CallInstruction {
+	var out []ssa.CallInstruction
+	for _, c := range core.Calls(fn) {
+		cal := c.Common().StaticCallee()
+		if cal == nil {
+			continue
+		}
+		if cal.String() == "bytes.Equal" {
+			out = append(out, c)
+			continue
+		}
+		if len(cal.Blocks) == 0 || cal.Pkg != core.Outermost(fn).Pkg || cal.Signature.Results().Len() != 1 || types.TypeString(cal.Signature.Results().At(0).Type(), nil) != "bool" {
+			continue
+		}
+		nb := 0
+		for _, prm := range cal.Params {
+			if types.TypeString(prm.Type(), nil) == "[]byte" {
+				nb++
+			}
+		}
+		if nb != 2 {
+			continue
+		}
+		for _, c2 := range core.Calls(cal) {
+			if k := c2.Common().StaticCallee(); k != nil && k.String() == "bytes.Equal" {
+				out = append(out, c)
+				break
+			}
+		}
+	}
+	return out
+}
+
+// evalKeyPredicate interprets a pure boolean helper over its two []byte
+// parameters for every combination of (x is nil, y is nil, bytes.Equal(x,y)).
+// eqOnNil reports that bytes.Equal was evaluated while a key was nil.
+func evalKeyPredicate(h *ssa.Function) (tbl map[[3]bool]bool, eqOnNil bool, ok bool) {
+	var keys []*ssa.Parameter
+	for _, prm := range h.Params {
+		if types.TypeString(prm.Type(), nil) == "[]byte" {
+			keys = append(keys, prm)
+		}
+	}
+	if len(keys) != 2 {
+		return nil, false, false
+	}
+	tbl = map[[3]bool]bool{}
+	for _, xn := range []bool{false, true} {
+		for _, yn := range []bool{false, true} {
+			for _, eq := range []bool{false, true} {
+				env := map[ssa.Value]bool{}
+				var eval func(v ssa.Value) (bool, bool)
+				eval = func(v ssa.Value) (bool, bool) {
+					if b, ok := env[v]; ok {
+						return b, true
+					}
+					switch x := v.(type) {
+					case *ssa.Const:
+						if x.Value != nil && x.Value.Kind().String() == "Bool" {
+							return x.Value.ExactString() == "true", true
+						}
+					}
+					return false, false
+				}
+				blk := h.Blocks[0]
+				var prev *ssa.BasicBlock
+				done := false
+				for steps := 0; steps < 200 && !done; steps++ {
+					var next *ssa.BasicBlock
+					for _, in := range blk.Instrs {
+						switch x := in.(type) {
+						case *ssa.DebugRef:
+						case *ssa.Phi:
+							for i, pb := range blk.Preds {
+								if pb == prev {
+									b, ok := eval(x.Edges[i])
+									if !ok {
+										return nil, false, false
+									}
+									env[x] = b
+								}
+							}
+						case *ssa.BinOp:
+							isNil := func(v ssa.Value) bool { c, ok := v.(*ssa.Const); return ok && c.IsNil() }
+							var res bool
+							switch {
+							case (x.Op == token.EQL || x.Op == token.NEQ) && (isNil(x.Y) || isNil(x.X)):
+								k := x.X
+								if isNil(x.X) {
+									k = x.Y
+								}
+								var n bool
+								switch k {
+								case ssa.Value(keys[0]):
+									n = xn
+								case ssa.Value(keys[1]):
+									n = yn
+								default:
+									return nil, false, false
+								}
+								res = n == (x.Op == token.EQL)
+							case x.Op == token.EQL || x.Op == token.NEQ:
+								a, ok1 := eval(x.X)
+								b, ok2 := eval(x.Y)
+								if !ok1 || !ok2 {
+									return nil, false, false
+								}
+								res = (a == b) == (x.Op == token.EQL)
+							default:
+								return nil, false, false
+							}
+							env[x] = res
+						case *ssa.UnOp:
+							if x.Op != token.NOT {
+								return nil, false, false
+							}
+							a, ok := eval(x.X)
+							if !ok {
+								return nil, false, false
+							}
+							env[x] = !a
+						case *ssa.Call:
+							cal := x.Common().StaticCallee()
+							if cal == nil || cal.String() != "bytes.Equal" {
+								return nil, false, false
+							}
+							a0, a1 := x.Common().Args[0], x.Common().Args[1]
+							if !((a0 == ssa.Value(keys[0]) && a1 == ssa.Value(keys[1])) || (a0 == ssa.Value(keys[1]) && a1 == ssa.Value(keys[0]))) {
+								return nil, false, false
+							}
+							if xn || yn {
+								eqOnNil = true
+							}
+							env[x] = eq
+						case *ssa.If:
+							c, ok := eval(x.Cond)
+							if !ok {
+								return nil, false, false
+							}
+							if c {
+								next = blk.Succs[0]
+							} else {
+								next = blk.Succs[1]
+							}
+						case *ssa.Jump:
+							next = blk.Succs[0]
+						case *ssa.Return:
+							b, ok := eval(x.Results[0])
+							if !ok {
+								return nil, false, false
+							}
+							tbl[[3]bool{xn, yn, eq}] = b
+							done = true
+						default:
+							return nil, false, false
+						}
+					}
+					if done {
+						break
+					}
+					if next == nil {
+						return nil, false, false
+					}
+					prev, blk = blk, next
+				}
+				if !done {
+					return nil, false, false
+				}
+			}
+		}
+	}
+	return tbl, eqOnNil, true
+}
+
+// isChangedFlag: al is a bool local of the method that one of its closures sets to true.
+func isChangedFlag(al *ssa.Alloc) bool {
+	if b, ok := al.Type().(*types.Pointer).Elem().Underlying().(*types.Basic); !ok || b.Kind() != types.Bool {
+		return false
+	}
+	for _, a := range al.Parent().AnonFuncs {
+		for _, f2 := range withAnon(a) {
+			for _, b := range f2.Blocks {
+				for _, in := range b.Instrs {
+					if st, ok := in.(*ssa.Store); ok && isConstBool(st.Val, true) {
+						if fv, ok := st.Addr.(*ssa.FreeVar); ok && core.BindingOf(fv) == ssa.Value(al) {
+							return true
+						}
+					}
+				}
+			}
+		}
+	}
+	return false
+}
+
+// derivesFromField: v is a load of field tname.fname, or a load of a local /
+// captured variable one of whose assigned values is such a load.
+func derivesFromField(v ssa.Value, tname, fname string) bool {
+	isF := func(x ssa.Value) bool {
+		f, ok := core.LoadedField(x)
+		return ok && f.Name == fname && strings.HasSuffix(f.Struct, tname)
+	}
+	if isF(v) {
+		return true
+	}
+	u, ok := v.(*ssa.UnOp)
+	if !ok || u.Op != token.MUL {
+		return false
+	}
+	cell := u.X
+	if fv, ok := cell.(*ssa.FreeVar); ok {
+		cell = core.BindingOf(fv)
+	}
+	al, ok := cell.(*ssa.Alloc)
+	if !ok || al.Referrers() == nil {
+		return false
+	}
+	for _, rf := range *al.Referrers() {
+		if st, ok := rf.(*ssa.Store); ok && st.Addr == ssa.Value(al) && isF(st.Val) {
+			return true
+		}
+	}
+	return false
 }
